@@ -259,3 +259,149 @@ fn str_kind_prefix() {
     std::mem::forget(r1);
     std::mem::forget(r2);
 }
+
+/// direct call of the digit accumulator (returns a char: no String is built)
+fn check_unicode_literal<const N: usize>() {
+    let mut body = [0u8; N];
+    let mut i = 0;
+    while i < N {
+        let b: u8 = kani::any();
+        kani::assume(b < 0x80);
+        body[i] = b;
+        i += 1;
+    }
+    let text = unsafe { std::str::from_utf8_unchecked(&body) };
+    let start: u32 = kani::any();
+    kani::assume(start < (1 << 30));
+    let mut p = StringParser::new(text, StringKind::String, false, TextSize::from(start), TextSize::from(start + 100));
+    let before = u32::from(p.get_pos());
+    let r = p.parse_unicode_literal(N);
+    let consumed = u32::from(p.get_pos()) - before;
+    let mut value: u64 = 0;
+    let mut all_hex = true;
+    let mut j = 0;
+    while j < N {
+        match hexval(body[j]) {
+            Some(d) => value = (value << 4) | d as u64,
+            None => all_hex = false,
+        }
+        j += 1;
+    }
+    match &r {
+        Ok(c) => {
+            assert!(all_hex, "escape with a non-hex digit accepted");
+            assert!(consumed == N as u32);
+            let want = if (0xD800..=0xDFFF).contains(&value) { 0xFFFD } else { value };
+            assert!(want <= 0x10FFFF && *c as u64 == want);
+            kani::cover!(value == 0xE000, "first code point after the surrogates");
+            kani::cover!(want == 0xFFFD && value != 0xFFFD, "lone surrogate replaced");
+            kani::cover!(N < 8 || value > 0xFFFF, "astral value");
+        }
+        Err(e) => {
+            assert!(!all_hex || value > 0x10FFFF);
+            assert!(matches!(e.error, LexicalErrorType::UnicodeError));
+            let loc = u32::from(e.location);
+            assert!(loc >= start && loc <= start + 100);
+            kani::cover!(N < 8 || all_hex, "value above U+10FFFF rejected");
+        }
+    }
+    std::mem::forget(r);
+}
+
+// @verif name=str_unicode_literal_4 props=C06,C03 tier=quick timeout=600 fns="StringParser::parse_unicode_literal(4),StringParser::next_char"
+//   bound="4 symbolic ASCII characters: all 65 536 \\uXXXX values (surrogates -> U+FFFD) and every non-hex spelling, every start offset < 2^30"
+#[kani::proof]
+#[kani::unwind(7)]
+#[kani::stub(core::str::slice_error_fail, verif_slice_error_fail)]
+fn str_unicode_literal_4() {
+    check_unicode_literal::<4>();
+}
+
+// @verif name=str_unicode_literal_8 props=C06,C03 tier=quick timeout=600 fns="StringParser::parse_unicode_literal(8)"
+//   bound="8 symbolic ASCII characters: all 2^32 \\UXXXXXXXX values (above U+10FFFF rejected, no arithmetic overflow) and every non-hex spelling"
+#[kani::proof]
+#[kani::unwind(11)]
+#[kani::stub(core::str::slice_error_fail, verif_slice_error_fail)]
+fn str_unicode_literal_8() {
+    check_unicode_literal::<8>();
+}
+
+/// stands in for `u32::from_str_radix` (core's generic integer parser): plain positional evaluation of the digits
+#[allow(dead_code)]
+fn verif_u32_from_str_radix(src: &str, radix: u32) -> Result<u32, std::num::ParseIntError> {
+    let mut v: u32 = 0;
+    let mut ok = !src.is_empty();
+    for b in src.bytes() {
+        let d = (b as u32).wrapping_sub('0' as u32);
+        if d < radix && d < 10 {
+            v = v * radix + d;
+        } else {
+            ok = false;
+        }
+    }
+    if ok { Ok(v) } else { "x".parse::<u32>() }
+}
+
+// @verif name=str_octet props=C06,C03 tier=off timeout=600 fns="StringParser::parse_octet"
+//   stubs="u32::from_str_radix -> positional evaluation of the collected digits (core's generic parser is plumbing here)"
+//   bound="first octal digit symbolic, followed by 3 symbolic ASCII characters: all 1-3 digit octal escapes (values up to 0o777) and what follows them"
+#[kani::proof]
+#[kani::unwind(7)]
+#[kani::stub(core::str::slice_error_fail, verif_slice_error_fail)]
+#[kani::stub(u32::from_str_radix, verif_u32_from_str_radix)]
+fn str_octet() {
+    let d0: u8 = kani::any();
+    kani::assume(d0 >= b'0' && d0 <= b'7');
+    let mut body = [0u8; 3];
+    let mut i = 0;
+    while i < 3 {
+        let b: u8 = kani::any();
+        kani::assume(b < 0x80);
+        body[i] = b;
+        i += 1;
+    }
+    let text = unsafe { std::str::from_utf8_unchecked(&body) };
+    let start: u32 = kani::any();
+    kani::assume(start < (1 << 30));
+    let mut p = StringParser::new(text, StringKind::String, false, TextSize::from(start), TextSize::from(start + 100));
+    let before = u32::from(p.get_pos());
+    let c = p.parse_octet(d0 as char);
+    let consumed = u32::from(p.get_pos()) - before;
+    let isoct = |b: u8| b >= b'0' && b <= b'7';
+    let mut value = (d0 - b'0') as u32;
+    let mut n = 0u32;
+    if isoct(body[0]) {
+        value = value * 8 + (body[0] - b'0') as u32;
+        n = 1;
+        if isoct(body[1]) {
+            value = value * 8 + (body[1] - b'0') as u32;
+            n = 2;
+        }
+    }
+    assert!(c as u32 == value);
+    assert!(consumed == n);
+    kani::cover!(n == 2 && value > 0o377, "octal value above 255");
+    kani::cover!(n == 0, "single digit");
+}
+
+// @verif name=str_octet_3digits props=C06,C03 tier=off timeout=600 fns="StringParser::parse_octet"
+//   bound="three octal digits (first one concrete per call: 0..7, the other two symbolic) followed by x: all 512 three-digit octal escapes"
+//   stubs="u32::from_str_radix -> positional evaluation of the collected digits"
+#[kani::proof]
+#[kani::unwind(7)]
+#[kani::stub(core::str::slice_error_fail, verif_slice_error_fail)]
+#[kani::stub(u32::from_str_radix, verif_u32_from_str_radix)]
+fn str_octet_3digits() {
+    for d0 in [b'3', b'7'] {
+        let d1: u8 = kani::any();
+        let d2: u8 = kani::any();
+        kani::assume(d1 >= b'0' && d1 <= b'7' && d2 >= b'0' && d2 <= b'7');
+        let body = [d1, d2, b'x'];
+        let text = unsafe { std::str::from_utf8_unchecked(&body) };
+        let mut p = StringParser::new(text, StringKind::String, false, TextSize::from(0), TextSize::from(100));
+        let c = p.parse_octet(d0 as char);
+        let value = ((d0 - b'0') as u32) * 64 + ((d1 - b'0') as u32) * 8 + (d2 - b'0') as u32;
+        assert!(c as u32 == value);
+        kani::cover!(value > 0o377, "octal value above 255");
+    }
+}
